@@ -128,6 +128,21 @@ def selectHandler (extractRaw : Bool) (dlt : Nat) : Except String HandlerKind :=
     | some h => .ok h
     | none => .error defaultThrows
 
+/-- the table entry selects a real per-frame callback -/
+def isCallback : HandlerKind → Bool
+  | .generic _ => true
+  | .eth => true
+  | .raw => true
+  | .dot11 => true
+  | .throws _ => false
+  | .unknown _ => false
+
+/-- `next_packet` finds a callback for this link type (it does not throw `unknown_link_type`) -/
+def dispatches (dlt : Nat) : Bool :=
+  match selectHandler false dlt with
+  | .ok h => isCallback h
+  | .error _ => false
+
 /-- the sniffing method: value returned after the handler ran on one frame (`pcap_loop` returns 0 when its count
     runs out, `pcap_dispatch` and the harness's exact-copy method return the number of frames processed) -/
 inductive Method where
